@@ -192,6 +192,9 @@ def check_and_sanitize_items(
             if vobject_item.name == "VCARD":
                 object_uid = get_uid(vobject_item)
                 if object_uid:
+                    if object_uid in object_uids:
+                        raise ValueError("Multiple VCARD objects with the "
+                                         "same UID: %r" % object_uid)
                     object_uids.add(object_uid)
         for vobject_item in vobject_items:
             if vobject_item.name == "VLIST":
